@@ -111,7 +111,8 @@ def plan(tier):
                 for b in (0, 1, 2):
                     for k in (0, 1, 2):
                         conc.append([npre] + pre + [a, b, k])
-    units.append(dict(engine='e1', name='q_conc', tu='C09conc.cpp', entry='h_q_conc', unwind=14, vectors=conc,
+    units.append(dict(engine='e1', name='q_conc', tu='C09conc.cpp', entry='h_q_conc', unwind=14, vectors=conc, timeout=300, cbmc_extra=('--sat-solver', 'cadical'),   # two of these instances take MiniSat > 900 s and CaDiCaL 5 s
+                     
                       concrete=[([1, 0, 1, 0, 0], list(range(1, 11))), ([2, 1, 1, 0, 2, 1], list(range(1, 11))), ([0, 2, 1, 2], list(range(1, 11)))],
                       space="sequential prefix of <= 2 {push, pop} x operation A in {push, pop, unblock_pop} with operation B in {push, pop, unblock_pop} of another thread injected in front of A's k-th mutex "
                             "acquisition (k = 1..3; beyond A's last acquisition = after A), then draining",
